@@ -23,10 +23,12 @@ async fn run(mut sim: Sim, _seed: u64) -> Result<Value, String> {
     let n = 3 + sim.rng.gen_range(0..2);
     let keys = sim::sorted_keys(n, &mut sim.rng);
     let interval = [1_000u64, 2_000, 5_000][sim.rng.gen_range(0..3)];
-    let step = [500u64, 3_000, 10_000][sim.rng.gen_range(0..3)];
-    let maxb = [1_000u64, 7_000, 25_000, 60_000][sim.rng.gen_range(0..4)];
+    // the extremes are values too: no back-off at all, a cap below the step, a cap of zero on
+    // connections being established (nothing is ever dialed in the background)
+    let step = [0u64, 500, 3_000, 10_000][sim.rng.gen_range(0..4)];
+    let maxb = [0u64, 1_000, 7_000, 25_000, 60_000][sim.rng.gen_range(0..5)];
     let cto = [300u64, 2_000][sim.rng.gen_range(0..2)];
-    let cap = [1usize, 2, 100][sim.rng.gen_range(0..3)];
+    let cap = [0usize, 1, 2, 100][sim.rng.gen_range(0..4)];
     for k in keys {
         let mut config = base_config();
         config.connectivity_check_interval_ms = Some(interval);
